@@ -551,3 +551,56 @@ func vfMergeReflect(d, s protoreflect.Message) {
 		return true
 	})
 }
+
+func vfHexDigit(n byte) byte {
+	if n < 10 {
+		return '0' + n
+	}
+	return 'a' + n - 10
+}
+
+// vfJSONQuote: encoding/json's string encoding (appendString with HTML escaping, as json.Marshal
+// uses it), transcribed so that the engine can run it on symbolic bytes: the engine's stand-in for
+// json.Marshal(string); natively the real function runs.
+func vfJSONQuote(s string) []byte {
+	dst := []byte{'"'}
+	for i := 0; i < len(s); {
+		b := s[i]
+		if b < utf8.RuneSelf {
+			switch {
+			case b == '\\' || b == '"':
+				dst = append(dst, '\\', b)
+			case b == '\b':
+				dst = append(dst, '\\', 'b')
+			case b == '\f':
+				dst = append(dst, '\\', 'f')
+			case b == '\n':
+				dst = append(dst, '\\', 'n')
+			case b == '\r':
+				dst = append(dst, '\\', 'r')
+			case b == '\t':
+				dst = append(dst, '\\', 't')
+			case b < 0x20 || b == '<' || b == '>' || b == '&':
+				dst = append(dst, '\\', 'u', '0', '0', vfHexDigit(b>>4), vfHexDigit(b&0xf))
+			default:
+				dst = append(dst, b)
+			}
+			i++
+			continue
+		}
+		c, size := utf8.DecodeRuneInString(s[i:])
+		if c == utf8.RuneError && size == 1 {
+			dst = append(dst, "\\ufffd"...)
+			i += size
+			continue
+		}
+		if c == '\u2028' || c == '\u2029' {
+			dst = append(dst, '\\', 'u', '2', '0', '2', vfHexDigit(byte(c&0xf)))
+			i += size
+			continue
+		}
+		dst = append(dst, s[i:i+size]...)
+		i += size
+	}
+	return append(dst, '"')
+}
